@@ -30,7 +30,7 @@ def configs(thorough: bool):
         cfgs += rnd.sample(perms, 20)
         cfgs += [rnd.choices(PASSES, k=rnd.randint(6, 8)) for _ in range(10)]
     else:
-        cfgs += rnd.sample(pairs, 8)
+        cfgs += pairs  # every ordered pair: a pass can create the shape another pass then mishandles
         perms = [list(x) for x in itertools.permutations(PASSES)]
         cfgs += rnd.sample(perms, 4)
         cfgs += [list(reversed(PASSES)), PASSES + PASSES]
@@ -56,7 +56,8 @@ def run(tier: str) -> int:
             {"Family": "optinl", "MaxLen": 3, "Starts": "zero", "Sample": 160, "workers": 3, "opt_cfgs": cfgs},
             {"Family": "opttrv", "MaxLen": 4, "Starts": "zero", "Sample": 100, "workers": 3, "opt_cfgs": cfgs},
             {"Family": "mods", "MaxLen": 4, "Starts": "zero", "Sample": 100, "workers": 3, "opt_cfgs": small},
-            {"Family": "stack", "MaxLen": 3, "Starts": "zero", "Sample": 300, "workers": 3, "opt_cfgs": small},
+            {"Family": "stack", "MaxLen": 3, "Starts": "zero", "Sample": 200, "workers": 3, "opt_cfgs": small},
+            {"Family": "stack1", "MaxLen": 3, "Starts": "zero", "Sample": 400, "workers": 3, "opt_cfgs": small, "style": "min"},
             {"Family": "core3", "MaxLen": 3, "Starts": "zero", "Sample": 150, "workers": 3, "opt_cfgs": small},
         ]
     else:
